@@ -202,6 +202,9 @@ func check(c Case) (o ev.Outcome) {
 	if c.Set.OlderText() != nil {
 		o.Class("older-revision-also-loaded")
 	}
+	if len(c.Set.Extra) > 0 {
+		o.Class("submodule-that-no-module-includes")
+	}
 	for _, f := range c.Wild {
 		o.Class("wild/" + f)
 	}
@@ -395,6 +398,15 @@ func gen(t *rapid.T) Case {
 		schema.AddAugmentChain(t, set)
 	}
 	c := Case{Set: set}
+	if rapid.IntRange(0, 4).Draw(t, "orphan-submodules") == 0 {
+		// a further submodule of the module that the module does not include (a leftover, or one that this revision
+		// of the module no longer lists) and that includes one of the module's submodules; its name sorts last
+		for _, m := range set.Modules {
+			if owner := set.Owner(m); m.IsSub && owner != nil && len(set.Extra) < 2 {
+				set.Extra = append(set.Extra, ymodel.Source{Name: "zzz-" + m.Name + ".yang", Text: fmt.Sprintf("submodule zzz-%s {\n  belongs-to %s { prefix %s; }\n  include %s;\n  container zzz-orphan { leaf x { type string; } }\n}\n", m.Name, owner.Name, owner.Prefix, m.Name)})
+			}
+		}
+	}
 	if rapid.IntRange(0, 3).Draw(t, "wild") == 0 {
 		c.Wild = addWild(t, set)
 	}
